@@ -399,19 +399,36 @@ def aidxSet (ai : List (Addr × List Id)) (a : Addr) (l : List Id) : List (Addr 
   let rest := ai.filter (·.1 != a)
   if l.isEmpty then rest else rest ++ [(a, l)]
 
+/-- the add loop of poolAddrIndex.adjust: append each new hash unless it is being removed or is
+already indexed -/
+def addIds (rm : List Id) : List Id → List Id → R (List Id)
+  | [], acc => .ok acc
+  | h :: rest, acc =>
+    if rm.contains h then .error "aidx-add-rm"
+    else if acc.contains h then .error "aidx-already"
+    else addIds rm rest (acc ++ [h])
+
 /-- poolAddrIndex.adjust -/
-def aidxAdjust (ai : List (Addr × List Id)) (a : Addr) (add rm : List Id) : R (List (Addr × List Id)) := do
-  if add.isEmpty && rm.isEmpty then return ai
-  let existing := aidxGet ai a
-  if hasDup rm then .error "aidx-rm-dup"
-  if existing.length < rm.length then .error "aidx-rm-longer"
-  let kept := existing.filter (fun h => !rm.contains h)
-  if existing.length - kept.length != rm.length then .error "aidx-rm-missing"
-  let new ← add.foldlM (fun acc h =>
-      if rm.contains h then (.error "aidx-add-rm" : R (List Id))
-      else if acc.contains h then .error "aidx-already"
-      else .ok (acc ++ [h])) kept
-  .ok (aidxSet ai a new)
+def aidxAdjust (ai : List (Addr × List Id)) (a : Addr) (add rm : List Id) : R (List (Addr × List Id)) :=
+  if add.isEmpty && rm.isEmpty then .ok ai
+  else
+    let existing := aidxGet ai a
+    if hasDup rm then .error "aidx-rm-dup"
+    else if existing.length < rm.length then .error "aidx-rm-longer"
+    else
+      let kept := existing.filter (fun h => !rm.contains h)
+      if existing.length - kept.length != rm.length then .error "aidx-rm-missing"
+      else match addIds rm add kept with
+        | .error e => .error e
+        | .ok new => .ok (aidxSet ai a new)
+
+/-- one pass of address-index adjustments over a list of addresses -/
+def aidxPass (created spent : List Ux) : List Addr → List (Addr × List Id) → R (List (Addr × List Id))
+  | [], ai => .ok ai
+  | a :: rest, ai =>
+    match aidxAdjust ai a ((created.filter (·.addr == a)).map (·.id)) ((spent.filter (·.addr == a)).map (·.id)) with
+    | .error e => .error e
+    | .ok ai' => aidxPass created spent rest ai'
 
 def addrsOf (us : List Ux) : List Addr := (us.map (·.addr)).eraseDups
 
@@ -426,11 +443,10 @@ def unspentProcessBlock (s : State) (b : Block) : R State := do
   let pool2 := pool1 ++ created
   let xor2 := xorList (created.map (·.snap)) xor1
   let rmAddrs := addrsOf spent
-  let ai1 ← rmAddrs.foldlM (fun ai a =>
-      aidxAdjust ai a ((created.filter (·.addr == a)).map (·.id)) ((spent.filter (·.addr == a)).map (·.id))) s.aidx
+  let ai1 ← aidxPass created spent rmAddrs s.aidx
   let addAddrs := (addrsOf created).filter (fun a => !rmAddrs.contains a)
-  let ai2 ← addAddrs.foldlM (fun ai a =>
-      aidxAdjust ai a ((created.filter (·.addr == a)).map (·.id)) []) ai1
+  -- for these addresses nothing is removed (`spent` has no output of theirs)
+  let ai2 ← aidxPass created spent addAddrs ai1
   if b.seq == 0 then
     if s.aih.isSome then .error "aih-set"
   else if some b.seq != s.aih.map (· + 1) then .error "out-of-order"
